@@ -30,8 +30,9 @@ ASSUMPTIONS = ['NumPy-backed xarray.Dataset of 2-D same-shaped layers with at le
                'reference layers for rank/popularity have an integer dtype (a float reference raises TypeError in list indexing)',
                'the model is the behaviour after fixes/C17-nditer-c-order-single-layer.diff (C-order iteration, single layer allowed)']
 PARTIAL = [
-    'popularity: the property text gives no definition; only per-cell dependence, NaN absorption and model correspondence are checked '
-    '(the code returns the ref-th smallest DISTINCT value when 1 < #distinct < #layers, not an occurrence-count ranking)',
+    'popularity: the property text gives no definition; C17_popularity_spec and the oracle state what the code computes (NaN when no value '
+    'repeats, the common value when all layers agree, otherwise the ref-th smallest DISTINCT value, NaN for ref > #distinct). This is NOT '
+    'a ranking by number of occurrences as the docstring / ArcGIS "nth most popular" suggests — recorded as an observation, not claimed as a defect',
     'cell_stats std: the Coq model computes the variance over Q; sqrt is outside the model (harness compares std**2)',
     'rank/popularity with a reference outside 1..n: modelled (Python negative-index wrap, IndexError) and corresponded, no theorem',
 ]
@@ -41,7 +42,8 @@ LEVEL_TEXT = ('Proved for all shapes, any number of layers and all values (Coq, 
               'sorted permutation of the tuple; combine ids are equal iff the tuples are equal, form a restricted-growth numbering from 1 '
               'in first-occurrence order and attrs[key] inverts them; every cell function returns NaN when a layer is NaN; '
               'max/min/sum/mean/median/variance equal their definitions. Correspondence and the exact per-cell oracle cover all nine '
-              'functions and six statistics on generated datasets incl. non-C memory layouts; popularity is correspondence-only.')
+              'functions and six statistics on generated datasets incl. non-C memory layouts; popularity is proved to be the ref-th smallest distinct value '
+              '(NaN when no value repeats; the common value when all agree) and checked as such by the oracle.')
 LEVEL_NOTE = ('Trusted: the Coq kernel, extraction, the OCaml driver, the harness embedding of floats into Z, NumPy reductions on tuples, '
               'np.nditer/reshape semantics as modelled.')
 
@@ -236,6 +238,19 @@ def oracle(case, res):
                     if o != exp:
                         return 'rank: %s ref %r got %r, expected %r (ref-th smallest)' % (where, r, o, exp)
             elif fn == 'popularity':
+                r = ref[y][x]
+                dist = sorted(set(t))          # the distinct layer values, ascending
+                if r == int(r) and r >= 1:
+                    if len(dist) == len(t):
+                        exp = float('nan')     # no value occurs twice
+                    elif len(dist) == 1:
+                        exp = dist[0]          # all layers agree
+                    elif r <= len(dist):
+                        exp = dist[int(r) - 1]
+                    else:
+                        exp = float('nan')
+                    if not eqv(o, exp):
+                        return 'popularity: %s ref %r got %r, expected %r (distinct values %r)' % (where, r, o, exp, dist)
                 k = (ref[y][x], tuple(t))
                 if k in percell and not eqv(percell[k], o):
                     return 'popularity: %s ref %r got %r but an identical cell got %r (not a per-cell function)' % (
